@@ -126,11 +126,21 @@ def phraseOf (code : Nat) : Bytes :=
 
 def respType (reqType : Nat) : Nat := if reqType = CON then ACK else NON
 
-/-- coap_new_error_response() -/
-def errReply (m : Msg) (code : Nat) (flt : Filter) : Reply :=
+/-- the copy loop of coap_new_error_response(): coap_add_option_internal() refuses a second instance of a
+non-repeatable number (`number == pdu->max_opt`, max_opt starts at 0) -/
+def echoLoop (f : Filter) : (maxOpt : Nat) → Opts → Opts
+  | _, [] => []
+  | mx, (n, v) :: r =>
+    if f.get n then
+      if n = mx ∧ nonRepeatable.contains n then echoLoop f mx r
+      else (n, v) :: echoLoop f n r
+    else echoLoop f mx r
+
+/-- coap_new_error_response() on the request PDU as coap_option_check_critical() left it (`os`) -/
+def errReply (m : Msg) (os : Opts) (code : Nat) (flt : Filter) : Reply :=
   let f := ((flt.unset 12).unset 16).unset 9
   { src := .lib, type := respType m.type, code := code, mid := m.mid, token := m.token,
-    opts := m.opts.filter (fun o => f.get o.1),
+    opts := echoLoop f 0 os,
     body := .bytes (if code = 168 then [] else phraseOf code) }
 
 /-- coap_send_message_type_lkd(): empty message of the given type -/
@@ -189,13 +199,15 @@ def deliver (cfg : Cfg) (rq : Request) (resFlags : Option Nat) (observe : Bool) 
   if resp = .drop then [] else
   let r2 := if codeClass r1.code ≠ 2 ∧ observe then { r1 with opts := r1.opts.filter (·.1 != 6) } else r1
   let r3 := if r2.type = ACK ∧ r2.code = 0 then { r2 with token := [], opts := [], body := .bytes [] } else r2
-  [sendFix rq.mcast r3]
+  -- "No delays to response": coap_send_internal(); else the leisure-delayed path (coap_wait_ack), which skips the 5.08 fix-up
+  let immediate : Bool := !rq.mcast || (cfg.mpr && (match resFlags with | some fl => flag fl F_DIS_MCAST_DELAYS | none => false))
+  [if immediate then sendFix rq.mcast r3 else r3]
 
 /-! ### handle_request -/
 def handleRequest (cfg : Cfg) (tbl : Table) (rq : Request) (critOpt : Bool) (os : Opts) : Outcome :=
   let m := rq.msg
   let fail (resp : Nat) (resFlags : Option Nat) : Outcome :=
-    ⟨true, deliver cfg rq resFlags false (errReply m resp Filter.empty), none⟩
+    ⟨true, deliver cfg rq resFlags false (errReply m os resp Filter.empty), none⟩
   if rq.mcast ∧ m.type ≠ NON then Outcome.nothing else
   -- (no async state on a fresh context)
   let isProxyScheme := hasOpt os 39
@@ -314,7 +326,7 @@ def serverDecision (cfg : Cfg) (tbl : Table) (rq : Request) : Outcome :=
     if m.type = NON then
       -- RFC 7252 §8.1: no Reset in reply to a multicast NON
       ⟨true, if rq.mcast then [] else [emptyMsg RST m.mid], none⟩
-    else if m.type = CON then ⟨true, [errReply m 130 c.unknown], none⟩
+    else if m.type = CON then ⟨true, [errReply m (clearBlock2M m.opts) 130 c.unknown], none⟩
     else Outcome.nothing
   else if hasOpt m.opts 9 then Outcome.outOfScope                    -- registered OSCORE option: coap_oscore.c
   else if m.type = ACK then Outcome.nothing                          -- "Request using ACK - ignore"
@@ -322,7 +334,7 @@ def serverDecision (cfg : Cfg) (tbl : Table) (rq : Request) : Outcome :=
   else
   -- check_token_size (server session)
   if m.token.length > cfg.mts then
-    if cfg.mts > 8 then ⟨true, [errReply m 128 Filter.empty], none⟩
+    if cfg.mts > 8 then ⟨true, [errReply m (clearBlock2M m.opts) 128 Filter.empty], none⟩
     else ⟨true, if rq.mcast ∧ m.type = NON then [] else [emptyMsg RST m.mid], none⟩
   else handleRequest cfg tbl rq c.critOpt (clearBlock2M m.opts)
 
